@@ -1,4 +1,153 @@
-import Mathlib.Algebra.Order.Floor.Defs
+import Mathlib.Tactic.Linarith
+import Mathlib.Tactic.FieldSimp
+import Mathlib.Tactic.Positivity
+import Mathlib.Data.Rat.Floor
 import RichModel.Model.Progress
-theorem RichModel.Progress.ratProbe : Int.ceil (1/2 : ℚ) = 1 := by
-  rw [Int.ceil_eq_iff]; norm_num
+/-!
+The ratios of the progress model read as rational numbers (Mathlib's `ℚ` is core's `Rat`):
+`percentage`, `speed` and `time_remaining` are what the docstrings say, with the exact ceiling.
+The model itself stays import-free; this file only interprets its `(numerator, denominator)` pairs.
+-/
+namespace RichModel.Progress
+
+/-- the rational a `(numerator, denominator)` pair of the model denotes -/
+def fracQ (p : Int × Int) : ℚ := (p.1 : ℚ) / (p.2 : ℚ)
+
+/-- `min(100, max(0, x))` -/
+def clamp100 (x : ℚ) : ℚ := min 100 (max 0 x)
+
+/-- **percentage = completed / total · 100 clamped to 0..100, and 0 when the total is 0.** -/
+theorem percentage_eq_clamp (t : Task) :
+    fracQ t.percentage =
+      if t.total = 0 then 0 else clamp100 ((t.completed : ℚ) / (t.total : ℚ) * 100) := by
+  unfold Task.percentage fracQ clamp100
+  by_cases h0 : t.total = 0
+  · simp [h0]
+  · simp only [h0, if_false]
+    by_cases hneg : t.total < 0
+    · have ht : (t.total : ℚ) < 0 := by exact_mod_cast hneg
+      simp only [hneg, if_true]
+      by_cases h1 : -(100 * t.completed) < 0
+      · have hc : (0 : ℚ) < t.completed := by exact_mod_cast (by omega : 0 < t.completed)
+        have hx : (t.completed : ℚ) / t.total * 100 < 0 := by
+          have := div_neg_of_pos_of_neg hc ht; linarith
+        simp only [h1, if_true]
+        rw [max_eq_left hx.le, min_eq_right (by norm_num)]; simp
+      · by_cases h2 : 100 * -t.total < -(100 * t.completed)
+        · have hc : (t.completed : ℚ) < t.total := by exact_mod_cast (by omega : t.completed < t.total)
+          have hx : 100 < (t.completed : ℚ) / t.total * 100 := by
+            have : 1 < (t.completed : ℚ) / t.total := by rw [one_lt_div_of_neg ht]; exact hc
+            linarith
+          simp only [h1, h2, if_true, if_false]
+          rw [max_eq_right (by linarith), min_eq_left hx.le]; simp
+        · have hc1 : (t.completed : ℚ) ≤ 0 := by exact_mod_cast (by omega : t.completed ≤ 0)
+          have hc2 : (t.total : ℚ) ≤ t.completed := by exact_mod_cast (by omega : t.total ≤ t.completed)
+          have hq0 : 0 ≤ (t.completed : ℚ) / t.total := div_nonneg_of_nonpos hc1 ht.le
+          have hq1 : (t.completed : ℚ) / t.total ≤ 1 := by rw [div_le_one_of_neg ht]; exact hc2
+          simp only [h1, h2, if_false]
+          rw [max_eq_right (by linarith), min_eq_right (by linarith)]
+          push_cast
+          field_simp
+    · have ht : (0 : ℚ) < t.total := by exact_mod_cast (by omega : 0 < t.total)
+      simp only [hneg, if_false]
+      by_cases h1 : 100 * t.completed < 0
+      · have hc : (t.completed : ℚ) < 0 := by exact_mod_cast (by omega : t.completed < 0)
+        have hx : (t.completed : ℚ) / t.total * 100 < 0 := by
+          have := div_neg_of_neg_of_pos hc ht; linarith
+        simp only [h1, if_true]
+        rw [max_eq_left hx.le, min_eq_right (by norm_num)]; simp
+      · by_cases h2 : 100 * t.total < 100 * t.completed
+        · have hc : (t.total : ℚ) < t.completed := by exact_mod_cast (by omega : t.total < t.completed)
+          have hx : 100 < (t.completed : ℚ) / t.total * 100 := by
+            have : 1 < (t.completed : ℚ) / t.total := by rw [one_lt_div ht]; exact hc
+            linarith
+          simp only [h1, h2, if_true, if_false]
+          rw [max_eq_right (by linarith), min_eq_left hx.le]; simp
+        · have hc1 : (0 : ℚ) ≤ t.completed := by exact_mod_cast (by omega : 0 ≤ t.completed)
+          have hc2 : (t.completed : ℚ) ≤ t.total := by exact_mod_cast (by omega : t.completed ≤ t.total)
+          have hq0 : 0 ≤ (t.completed : ℚ) / t.total := div_nonneg hc1 ht.le
+          have hq1 : (t.completed : ℚ) / t.total ≤ 1 := by rw [div_le_one ht]; exact hc2
+          simp only [h1, h2, if_false]
+          rw [max_eq_right (by linarith), min_eq_right (by linarith)]
+          push_cast
+          field_simp
+
+/-- `Task.speed` as a rational, in amount-units per tick -/
+def Task.speedQ (t : Task) : Option ℚ := t.speed.map fracQ
+
+/-- **speed = (sum of all samples but the first) / (last timestamp − first timestamp)**, `None` for an
+unstarted task, no samples, or a zero time span. -/
+theorem speedQ_spec (t : Task) :
+    t.speedQ =
+      match t.startTime, t.samples with
+      | none, _ => none
+      | some _, [] => none
+      | some _, s0 :: rest =>
+        if (rest.getLast?.getD s0).ts - s0.ts = 0 then none
+        else some ((sumAmt rest : ℚ) / (((rest.getLast?.getD s0).ts - s0.ts : Int) : ℚ)) := by
+  unfold Task.speedQ Task.speed
+  cases t.startTime with
+  | none => rfl
+  | some s =>
+    cases t.samples with
+    | nil => rfl
+    | cons s0 rest =>
+      simp only
+      split <;> simp [fracQ]
+
+theorem ceilDiv_eq_ceil (a b : Int) (hb : 0 < b) : ceilDiv a b = ⌈(a : ℚ) / (b : ℚ)⌉ := by
+  have hb' : ((b.toNat : ℕ) : ℤ) = b := Int.toNat_of_nonneg hb.le
+  have := Rat.ceil_intCast_div_natCast a b.toNat
+  rw [← Int.cast_natCast, hb'] at this
+  rw [this]; rfl
+
+/-- **time_remaining = ⌈remaining / speed⌉ seconds** (exact ceiling), where `speed` in steps per second
+is `speedQ · tps`; `0` for a finished task, `None` when there is no speed or it is zero. -/
+theorem timeRemaining_eq_ceil (cfg : Cfg) (htps : 0 < cfg.tps) (t : Task) :
+    t.timeRemaining cfg =
+      if t.finishedTime.isSome then some 0
+      else match t.speedQ with
+        | none => none
+        | some v => if v = 0 then none else some ⌈(t.remaining : ℚ) / (v * (cfg.tps : ℚ))⌉ := by
+  unfold Task.timeRemaining Task.speedQ
+  split
+  · rfl
+  · cases hs : t.speed with
+    | none => rfl
+    | some p =>
+      obtain ⟨n, d⟩ := p
+      have hd : d ≠ 0 := by
+        unfold Task.speed at hs
+        cases h1 : t.startTime with
+        | none => simp [h1] at hs
+        | some s =>
+          cases h2 : t.samples with
+          | nil => simp [h1, h2] at hs
+          | cons s0 rest =>
+            simp only [h1, h2] at hs
+            split at hs
+            · cases hs
+            · next hne => simp only [Option.some.injEq, Prod.mk.injEq] at hs; omega
+      have hdq : (d : ℚ) ≠ 0 := by exact_mod_cast hd
+      have htq : (0 : ℚ) < cfg.tps := by exact_mod_cast htps
+      simp only [Option.map_some, fracQ]
+      by_cases hn : n = 0
+      · simp [hn]
+      · have hnq : (n : ℚ) ≠ 0 := by exact_mod_cast hn
+        have hv : (n : ℚ) / (d : ℚ) ≠ 0 := div_ne_zero hnq hdq
+        simp only [hn, hv, if_false]
+        congr 1
+        have hval : (t.remaining : ℚ) / ((n : ℚ) / (d : ℚ) * (cfg.tps : ℚ)) =
+            ((t.remaining * d : Int) : ℚ) / ((n * cfg.tps : Int) : ℚ) := by
+          push_cast; field_simp
+        by_cases hden : 0 < n * cfg.tps
+        · rw [if_pos hden, ceilDiv_eq_ceil _ _ hden, hval]
+        · have hden' : 0 < -(n * cfg.tps) := by
+            have : n * cfg.tps ≠ 0 := Int.mul_ne_zero hn (by omega)
+            omega
+          rw [if_neg hden, ceilDiv_eq_ceil _ _ hden', hval]
+          congr 1
+          push_cast
+          rw [neg_div_neg_eq]
+
+end RichModel.Progress
